@@ -332,6 +332,11 @@ def one_case(ctx, prog, vecs=None, label="gen"):
             if not want_instance and "err" in impl and impl["err"] not in ("priorLimit", "fit"):
                 ctx.fail("C03-wrong-exception", "violation did not raise the library's FitException", case, impl["err"])
 
+    # a model read back from its own dictionary form gates as the model it was written from - on every call, not
+    # only the first (the values are carried over path by path)
+    if prog_asserts and priors and rng.random() < 0.5:
+        reloaded_gate(ctx, prog, H, model, prog_asserts, todo, label)
+
     # unit route and random_instance: whatever comes back must satisfy every limit and assertion
     if priors:
         for _ in range(2):
@@ -349,6 +354,42 @@ def one_case(ctx, prog, vecs=None, label="gen"):
             if want != (r[0] == "ok") and not (r[0] == "err" and r[1].startswith("other")):
                 ctx.fail("C03-unit-route", "instance_from_unit_vector verdict differs from the inequalities on the mapped values",
                          {"program": prog, "units": units}, {"impl": "instance" if r[0] == "ok" else r[1], "limits_ok": lim_ok, "assertions": verdicts})
+
+
+def reloaded_gate(ctx, prog, H, model, prog_asserts, todo, label):
+    import json as _json
+    # literal assertions and assertions on components without free parameters have no dictionary form (DESIGN A.6)
+    if any("lit" in s["expr"] or H[s["h"]].prior_count == 0 for s in prog_asserts):
+        ctx.hit("reloaded:not-representable")
+        return
+    try:
+        re = AbstractPriorModel.from_dict(_json.loads(_json.dumps(model.dict())))
+        old_pp = {tuple(map(str, p)): pr for p, pr in model.path_priors_tuples}
+        new_pp = [(tuple(map(str, p)), pr) for p, pr in re.path_priors_tuples]
+        if set(old_pp) != {p for p, _ in new_pp} or re.prior_count != model.prior_count:
+            ctx.hit("reloaded:paths-differ")  # persistence is C08's subject
+            return
+        rank = {pr.id: j for j, pr in enumerate(model.priors_ordered_by_id)}
+        new_order = list(re.priors_ordered_by_id)
+        place = {}
+        for p, pr in new_pp:
+            place.setdefault(pr.id, p)
+    except Exception as e:  # noqa
+        ctx.hit("reloaded:raised:" + type(e).__name__)
+        return
+    ctx.hit("reloaded:gated")
+    # twice through the vectors: what the first calls did to the reloaded model must not matter
+    for kind, v in list(todo) + list(todo):
+        v2 = [v[rank[old_pp[place[pr.id]].id]] for pr in new_order]
+        a = outcome(model.instance_from_vector, v)
+        b = outcome(re.instance_from_vector, v2)
+        ka, kb = ("ok" if a[0] == "ok" else a[1].split(":")[0]), ("ok" if b[0] == "ok" else b[1].split(":")[0])
+        if ka != kb:
+            ctx.fail("C03-reloaded-model-gates-differently",
+                     "a model read back from its dictionary form accepts / rejects a vector differently from the model it was written from",
+                     {"program": prog, "vector": v, "kind": kind, "label": label, "reloaded": True},
+                     {"original": ka, "reloaded": kb})
+            return
 
 
 def run(ctx):
